@@ -431,7 +431,10 @@ func (r Wrapper) introspectAccessToken(input string) (*ExtendedTokenIntrospectio
 	}
 
 	if token.InputDescriptorConstraintIdMap != nil {
-		for _, reserved := range []string{"iss", "sub", "exp", "iat", "active", "client_id", "scope"} {
+		// Reserved are all members of the introspection response (and "sub"): additional properties are marshalled
+		// after the regular members, so a non-reserved name (e.g. "cnf" or "aud") would replace that member.
+		for _, reserved := range []string{"iss", "sub", "exp", "iat", "active", "client_id", "scope",
+			"aud", "cnf", "vps", "presentation_definitions", "presentation_submissions"} {
 			if _, isReserved := token.InputDescriptorConstraintIdMap[reserved]; isReserved {
 				return nil, fmt.Errorf("IntrospectAccessToken: InputDescriptorConstraintIdMap contains reserved claim name: %s", reserved)
 			}
